@@ -90,6 +90,16 @@ class Gen:
             if ctxsel is not None and not any((ctxsel[1:] == norm(self.clean(h))) if ctxsel.startswith('=') else (ctxsel in norm(h)) for (_, h, _) in it.ctx):
                 continue
             cands.append(it)
+        if not cands and ctxsel is None:
+            # a fn item nested in another function's body
+            from rustlex import Item
+            for k in range(len(src.toks) - 1):
+                if src.is_id(k, 'fn') and src.is_id(k + 1, name):
+                    b = k
+                    while not src.is_p(b, '{') and not src.is_p(b, ';'):
+                        b += 1
+                    if src.is_p(b, '{'):
+                        cands.append(Item(src, 'fn', name, k, k, src.match[b], b, [], []))
         if not cands:
             raise LostAnchor('fn not found: %s %s' % (rel, selector))
         if ordinal is None:
@@ -340,6 +350,22 @@ class Gen:
             if needle == '@span':
                 replacements.append(txt)
                 continue
+            if needle == '@dropfn':
+                k = lo_tok
+                found = False
+                while k < hi_tok:
+                    if src.is_id(k, 'fn') and src.is_id(k + 1, txt):
+                        b = k
+                        while not src.is_p(b, '{'):
+                            b += 1
+                        replacements.append((src.toks[k].start, src.toks[src.match[b]].end, ''))
+                        found = True
+                        break
+                    k += 1
+                if not found:
+                    raise LostAnchor('dropfn: nested fn %s not found' % txt)
+                self.drops.add('nested fn `%s` extracted as a function of its own' % txt)
+                continue
             if needle == '@replace':
                 # R10: a declared text substitution (the n-th occurrence of OLD, whitespace-insensitive, becomes NEW);
                 # used for iterator-adapter expressions that are replaced by a call to their summary function
@@ -434,6 +460,10 @@ class Gen:
                 m = re.match(r'//@replace\s+(\d+)\s+(.*?)\s+==>\s+(.*)$', s)
                 self_closures.append(['replace', int(m.group(1)), m.group(2), m.group(3)])
                 cur = []
+            elif s.startswith('//@dropfn'):
+                # a nested fn item of the body that is extracted (and put under contract) on its own
+                self_closures.append(['dropfn', 0, s.split()[1]])
+                cur = []
             elif s.startswith('//@loopstub'):
                 m = re.match(r'//@loopstub\s+(\d+)\s+(.*)$', s)
                 self_closures.append(['loopstub', int(m.group(1)), m.group(2)])
@@ -451,6 +481,9 @@ class Gen:
         for ent in self_closures:
             if ent[0] == 'loopstub':
                 pr.append((ent[1], '@loopstub', ent[2]))
+                continue
+            if ent[0] == 'dropfn':
+                pr.append((0, '@dropfn', ent[2]))
                 continue
             if ent[0] == 'replace':
                 pr.append((ent[1], '@replace', (ent[2], ent[3])))
@@ -938,7 +971,10 @@ class Gen:
                 e = k
                 while not src.is_p(e, ';'):
                     e += 1
-                uses.append(src.span_text(k, e))
+                # a `use` behind `#[cfg(feature = ..)]` belongs to a build configuration that is not the one verified (R2)
+                gated = src.is_p(k - 1, ']') and 'cfg' in src.span_text(src.match[k - 1], k - 1)
+                if not gated:
+                    uses.append(src.span_text(k, e))
                 k = e
             elif src.toks[k].kind == 'punct' and src.toks[k].text in '([{':
                 k = src.match[k]
